@@ -786,8 +786,9 @@ def run(ctx: Ctx) -> Result:
         cases.append(ctx.focus)
     loops = ["asyncio", "uvloop"]
     if quick:
-        cases += list(enum_orders(ctx.rng, 4, loops))
-        cases += [gen_random(ctx.rng, 4) for _ in range(ctx.n(160, 160))]
+        cases += list(enum_orders(ctx.rng, 4, ["asyncio"]))
+        cases += list(enum_orders(ctx.rng, 4, ["uvloop"]))
+        cases += [gen_random(ctx.rng, 4) for _ in range(ctx.n(300, 300))]
     else:
         cases += list(enum_orders(ctx.rng, 4, ["asyncio"]))
         cases += list(enum_orders(ctx.rng, 4, ["uvloop"]))
